@@ -240,11 +240,24 @@ fn eval_lib(gt: &str, container: Container, selected: bool, ctx: Ctx) -> Option<
 }
 
 fn eval_cli(gt: &str, container: Container, selected: bool, scratch: &Scratch) -> Option<Viol> {
+    eval_cli_with(gt, container, selected, "-vv", false, scratch)
+}
+
+/// `verbosity`: the logging flag of the run ("" for none); trace lines are only checked under -vv, the
+/// outcome, stdout and the locus named by an error under every flag. `reversed`: the list names the
+/// samples against their column order (one population, so the spectrum is the same).
+fn eval_cli_with(gt: &str, container: Container, selected: bool, verbosity: &str, reversed: bool, scratch: &Scratch) -> Option<Viol> {
     let ctx = CTXS[0];
     let cs = call_set(gt, ctx);
     let bytes = render(&cs, container, &Layout::Single);
-    let sarg = if selected { "s0,s1" } else { "s1" };
-    let o = run_sfs(&["create", "-vv", "-s", sarg], Stdin::Bytes(&bytes), scratch);
+    let sarg = if selected { if reversed { "s1,s0" } else { "s0,s1" } } else { "s1" };
+    let mut argv: Vec<&str> = vec!["create"];
+    if !verbosity.is_empty() {
+        argv.push(verbosity);
+    }
+    argv.extend(["-s", sarg]);
+    let o = run_sfs(&argv, Stdin::Bytes(&bytes), scratch);
+    let traced = verbosity == "-vv";
     let e = classify(gt);
     let stderr = o.stderr_str();
     let stdout = o.stdout_str();
@@ -258,6 +271,9 @@ fn eval_cli(gt: &str, container: Container, selected: bool, scratch: &Scratch) -
             problems.push(format!("stdout {stdout:?}, expected {expect_out:?}"));
         }
         let trace = "Skipping sample 's0' at site 'chr2:7'. Reason: '";
+        if !traced {
+            return;
+        }
         match reason {
             Some(r) => {
                 if !stderr.contains(&format!("{trace}{r}'")) {
@@ -318,11 +334,13 @@ fn eval_cli(gt: &str, container: Container, selected: bool, scratch: &Scratch) -
     } else {
         format!("C08|cli|misclassified|{}|expect={:?}|{}", gt_class(gt), e, if selected { "selected" } else { "unselected" })
     };
-    Some((
-        key,
-        format!("GT '{gt}' in the {} path (-s {sarg}): {}", container.name(), problems.join("; ")),
-        case_j(gt, container, selected, ctx, &bytes),
-    ))
+    let key = if verbosity == "-vv" && !reversed { key } else { format!("{key}|{}{}", if verbosity.is_empty() { "default-verbosity" } else { verbosity }, if reversed { "|list-against-column-order" } else { "" }) };
+    let mut case = case_j(gt, container, selected, ctx, &bytes);
+    if let J::Obj(o) = &mut case {
+        o.push(("verbosity".into(), J::s(verbosity)));
+        o.push(("reversed".into(), J::Bool(reversed)));
+    }
+    Some((key, format!("GT '{gt}' in the {} path ({argv:?}): {}", container.name(), problems.join("; ")), case))
 }
 
 pub fn run(tier: Tier) -> i32 {
@@ -427,6 +445,32 @@ pub fn run(tier: Tier) -> i32 {
     for v in res.into_iter().flatten() {
         rep.violation(v.0, v.1, v.2);
     }
+    // the same probe under every logging flag and with the list against the column order: which
+    // sample a trace line names, whether a failing run still names the locus, and what is counted must
+    // not depend on either
+    {
+        let picks: Vec<usize> = (0..gts.len()).filter(|&i| parse_gt(&gts[i]).len() <= 3 && i < n_plain).collect();
+        let mut vj: Vec<(usize, Container, &str, bool)> = Vec::new();
+        for &i in &picks {
+            for c in [Container::Vcf, Container::RawBcf] {
+                for (verb, rev) in [("-vv", true), ("", false), ("-q", false), ("-qq", false), ("-qq", true), ("-v", true), ("-vvv", false)] {
+                    vj.push((i, c, verb, rev));
+                }
+            }
+        }
+        let res = par_map(vj.len(), |j| eval_cli_with(&gts[vj[j].0], vj[j].1, true, vj[j].2, vj[j].3, &scratch));
+        for v in res.into_iter().flatten() {
+            rep.violation(v.0, v.1, v.2);
+        }
+        rep.part(Part {
+            name: "cli: logging flags and list order".into(),
+            evaluations: vj.len() as u64,
+            nontrivial: vj.len() as u64,
+            note: format!("{} GT strings of ploidy <= 3 x {{vcf, raw bcf}} x {{-vv with the list against the column order, no flag, -q, -qq, -qq reversed, -v reversed, -vvv}}: same outcome and stdout; under -vv the trace line names the probe sample; a failing run names chr2:7 under every flag", picks.len()),
+            exhaustive: true,
+            extra: vec![],
+        });
+    }
     rep.part(Part {
         name: "cli: sfs create -vv".into(),
         evaluations: cj.len() as u64,
@@ -518,5 +562,9 @@ pub fn replay(case: &J) -> Option<Vec<String>> {
     let ctx = if alt_dot { ALT_DOT } else { CTXS.iter().copied().find(|x| x.partner == partner && x.probe_first == probe_first)? };
     let mut v: Vec<Viol> = eval_lib(&gt, c, sel, ctx).into_iter().collect();
     v.extend(eval_cli(&gt, c, sel, &scratch));
+    if let Some(verb) = case.get("verbosity").and_then(|x| x.as_str()) {
+        let verb: &'static str = ["-vv", "", "-q", "-qq", "-v", "-vvv"].iter().copied().find(|k| *k == verb).unwrap_or("-vv");
+        v.extend(eval_cli_with(&gt, c, sel, verb, matches!(case.get("reversed"), Some(J::Bool(true))), &scratch));
+    }
     Some(v.into_iter().map(|(k, w, _)| format!("{k} :: {w}")).collect())
 }
